@@ -17,6 +17,10 @@ are in addition run on renumbered copies of every mesh (`renumber` stream, oracl
 model and code disagree is handed to `intensify` (the same mesh under many node numberings and storage orders, the
 operation with freshly drawn selections, judged by the property oracle) so that a broken correspondence ends in a
 concrete failing input whenever the disagreement is a symptom of a property violation nearby.
+
+Element types (round 4, seeded C09-8): the generators produce every type the face tables of `_generate_all_faces` know, incl.
+the 12-node hexagonal prism (combinatorial meshes; conforming columns of stacked hexprisms, also mixed with hex / prism); the
+oracle's hand table `FACES` covers it; `C09_face_tables_closed` is a `decide` obligation on the regenerated tables.
 """
 from fractions import Fraction as F
 
@@ -43,10 +47,14 @@ THEOREMS = [
     'C09_self_contained_surface_keep', 'C09_exact_selection_surface_keep', 'C09_values_attached_surface_keep',
     'C09_self_contained_facets_all', 'C09_exact_selection_facets_all', 'C09_values_attached_facets_all',
     'C09_radix_key_injective', 'C09_radix_key_counterexample',
+    'C09_face_tables_closed',
 ]
 PARTIAL = []
 RULE = ('meshes: conforming geometric bricks (tet / hex / pyr / prism / mixed, optionally promoted to tet2) and '
-        'combinatorial meshes over line/tri/quad/tet/tet2/pyr/prism/hex/hex2 with arbitrary connectivity; node and element '
+        'combinatorial meshes over line/tri/quad/tet/tet2/pyr/prism/hex/hex2/hexprism with arbitrary connectivity; 8 % of the meshes '
+        'conforming columns of stacked 12-node hexagonal prisms (1-2 neighbouring columns x 1-3 layers: caps are interior interfaces, '
+        'side faces shared between columns), half of them MIXED with hexes / triangular prisms attached to side faces - every '
+        'element type the face tables of _generate_all_faces know (tri quad tet tet2 pyr prism hex hexprism) is generated; node and element '
         'ids dense / sparse / ~1e6 / ~2e9 / prefix-like, and (30 % of the meshes) SPARSE BUT SMALL node ids with additive '
         'structure (2-3 separately numbered dense parts whose offsets are about the node count, ids that are multiples / '
         'digit shifts of each other, strides, max id just above the node count); storage order ascending / descending / '
@@ -69,6 +77,10 @@ ASSUMPTIONS = [
     'from meshgen.FACES) / all faces once (to_facets) / all faces once per element (remove_duplicates=False), that every node '
     'of such a face is retained and that retained nodes keep ids, coordinates and values; orientation and geometry of the '
     'facets are C10',
+    'hexprism (12-node hexagonal prism): femio\'s facets are triangles / quadrangles only; the faces of the element are its six side '
+    'quadrangles and, per hexagonal cap, the two quadrangles on either side of the 1-4 (top: 7-10) diagonal (femio\'s convention, under '
+    'which the top cap of a prism is, as vertex sets, the bottom cap of the prism stacked on it); polygon / polyhedron cells (object '
+    'arrays + separate face data) are not generated',
     'the order / numbering of the new surface elements is compared with the model (np.unique row order) by the correspondence '
     'only: the property does not state it, the oracle does not judge it',
 ]
@@ -82,6 +94,15 @@ SURF = ('surface', 'surface_keep')
 FACET_OPS = ('surface', 'surface_keep', 'facets', 'facets_all')
 ERR = {ValueError: 'value', KeyError: 'key', IndexError: 'index', NotImplementedError: 'other'}
 T_IDX = {t: i for i, t in enumerate(G.ELEMENT_TYPES)}
+# hand specification of the faces of every solid type `_generate_all_faces` knows (vertex sets are what the oracle uses).
+# hexprism = femio's 12-node hexagonal prism (bottom hexagon 0..5, top hexagon 6..11): femio's facets are triangles and
+# quadrangles only, a hexagonal cap is the two quadrangles on either side of its 1-4 (top: 7-10) diagonal - so that the top cap
+# of one prism is, as vertex sets, the bottom cap of the prism stacked on it - and the six side faces are [k, k+1, k+7, k+6]
+FACES = dict(G.FACES)
+FACES['hexprism'] = [[0, 5, 4, 1], [1, 4, 3, 2], [6, 7, 10, 11], [7, 8, 9, 10]] + \
+    [[k, (k + 1) % 6, (k + 1) % 6 + 6, k + 6] for k in range(6)]
+# the element types the face tables of `_generate_all_faces` know (polygon / polyhedron cells: object arrays, not generated)
+FACE_TYPES = ['tri', 'quad', 'tet', 'tet2', 'pyr', 'prism', 'hex', 'hexprism']
 
 
 # ------------------------------------------------------------------ generators
@@ -190,9 +211,61 @@ def gen_mesh(rnd, quick=True):
     return m
 
 
+HEXAGON = [(2, 0), (1, 2), (-1, 2), (-2, 0), (-1, -2), (1, -2)]      # counter-clockwise
+
+
+def gen_hexprism_columns(rnd, quick=True):
+    """round 4 (class I, seeded C09-8): the rarely used 12-node hexagonal prism.  A conforming, positively oriented mesh of
+    1-2 neighbouring columns (the hexagons share an edge) of 1-3 stacked hexprisms - so that caps are interior interfaces and
+    side faces are shared between columns - optionally MIXED: hexes and triangular prisms attached to side faces of some layers
+    (sharing the side quadrangle).  Ids / storage order as everywhere (gen_mesh adds the small-sparse numberings), optional
+    unreferenced node."""
+    layers = rnd.randint(1, 3)
+    centres = [(0, 0), (3, 2)][:rnd.choice([1, 1, 2])]
+    pts = {}
+
+    def node(x, y, z):
+        return pts.setdefault((x, y, z), len(pts))
+    blocks = {}
+    for cx, cy in centres:
+        for z in range(layers):
+            blocks.setdefault('hexprism', []).append([node(cx + x, cy + y, z + dz) for dz in (0, 1) for x, y in HEXAGON])
+    mixed = rnd.random() < .5
+    if mixed:
+        for z in range(layers):
+            if rnd.random() < .6:       # hex on the side face over the edge (-1,-2)-(1,-2) of the first column
+                blocks.setdefault('hex', []).append([node(x, y, z + dz) for dz in (0, 1) for x, y in [(-1, -4), (1, -4), (1, -2), (-1, -2)]])
+            if rnd.random() < .6:       # prism on the side face over the edge (-2,0)-(-1,-2)
+                blocks.setdefault('prism', []).append([node(x, y, z + dz) for dz in (0, 1) for x, y in [(-2, 0), (-3, -2), (-1, -2)]])
+    n_unref = 1 if rnd.random() < .3 else 0
+    if n_unref:
+        node(77, 78, 79)
+    n = len(pts)
+    id_list, id_style = G.random_ids(rnd, n)
+    idmap = dict(zip(range(n), id_list))
+    keys, order = G.order_ids(rnd, list(range(n)), idmap)
+    coord = {k: p for p, k in pts.items()}
+    sc = rnd.choice([F(1), F(1, 2), F(3, 4)])
+    nodes = [(idmap[k], tuple(F(v) * sc for v in coord[k])) for k in keys]
+    n_el = sum(len(b) for b in blocks.values())
+    eids, _ = G.random_ids(rnd, n_el, rnd.choice(['dense', 'sparse', 'large']))
+    rnd.shuffle(eids)
+    it = iter(eids)
+    out = {}
+    for t in G.ELEMENT_TYPES:
+        if t in blocks:
+            b = [(next(it), [idmap[k] for k in c]) for c in blocks[t]]
+            rnd.shuffle(b)
+            out[t] = b
+    return {'kind': 'hexprism-columns' + (':mixed' if len(out) > 1 else ''), 'order': order, 'id_style': id_style, 'nodes': nodes,
+            'blocks': out, 'n_unref': n_unref}
+
+
 def gen_mesh0(rnd, quick=True):
     r = rnd.random()
     mc = 2 if quick else 3
+    if r < .08:
+        return gen_hexprism_columns(rnd, quick)
     if r < .45:
         kind = rnd.choice(['tet', 'hex', 'mixed', 'pyr', 'prism'])
         m = G.gen_geometric(rnd, kind=kind, max_cells=mc if kind != 'tet' else min(mc, 2))
@@ -205,7 +278,7 @@ def gen_mesh0(rnd, quick=True):
     else:
         types = None
         if rnd.random() < .35:
-            types = rnd.sample(['tri', 'quad', 'tet', 'tet2', 'hex', 'hex2', 'pyr', 'prism'], rnd.randint(1, 3))
+            types = rnd.sample(['tri', 'quad', 'tet', 'tet2', 'hex', 'hex2', 'pyr', 'prism', 'hexprism'], rnd.randint(1, 3))
         m = G.gen_combinatorial(rnd, types=types, max_elems=10 if quick else 30)
     m['nodes'] = [(i, tuple(F(float(x)) for x in p)) for i, p in m['nodes']]
     return m
@@ -525,7 +598,7 @@ def face_counts(m):
     """vertex set of every face of every element -> number of occurrences (hand specification of the face tables)"""
     count = {}
     for t, b in m['blocks'].items():
-        tbl = [list(range(G.ARITY[t]))] if t in ('tri', 'quad') else G.FACES['tet' if t == 'tet2' else t]
+        tbl = [list(range(G.ARITY[t]))] if t in ('tri', 'quad') else FACES['tet' if t == 'tet2' else t]
         for _, c in b:
             for f in tbl:
                 k = frozenset(c[i] for i in f)
@@ -875,6 +948,9 @@ def run(ctx):
         for k in range(ctx.n(120, 500)):
             one_mesh(ctx, rnd, pending)
             pending.clear()
+    never = [t for t in FACE_TYPES if not ctx.dist.get('etype:' + t)]
+    if never:
+        ctx.notes.append('element types known to the face tables but NOT generated in this run: ' + ', '.join(never))
     mis = {k: v for k, v in ctx.dist.items() if k.startswith('misaligned:') and 'rebound' in k}
     if mis:
         ctx.notes.append('misaligned stream (outside the default quantifier, DESIGN F9 class): the positional operations '
